@@ -196,4 +196,5 @@ def run():
     H.finish()
 
 
-main_wrapper(run)
+if __name__ == "__main__":
+    main_wrapper(run)
